@@ -29,7 +29,7 @@ var earlyTable = []earlyT{
 	{"a: b: a: ;", "reject", "-", "12.12"},
 	{"a: (function(){ a: ; });", "accept", "-", "12.12: nested function starts a new label set"},
 	{"a: ; a: ;", "accept", "-", "12.12"},
-	{"(a): 1;", "reject", "parenthesised_label", "12.12: LabelledStatement is Identifier : Statement"},
+	{"(a): 1;", "reject", "-", "12.12: LabelledStatement is Identifier : Statement"},
 	// 12.9 return
 	{"return;", "reject", "-", "12.9: return outside a FunctionBody"},
 	{"return 1", "reject", "-", "12.9"},
@@ -56,6 +56,22 @@ var earlyTable = []earlyT{
 	{"for (a, b in o);", "reject", "-", "12.6.4"},
 	{"for (var a, b in o);", "reject", "-", "12.6.4"},
 	{"for (var a = 1 in o);", "accept", "-", "12.6.4 VariableDeclarationNoIn"},
+	{"for (x = a ? b in c : d; ;) break;", "accept", "-", "11.12: the middle operand of ?: is an AssignmentExpression with In"},
+	{"for (var x = a < b in c) ;", "accept", "-", "11.8 / 12.6.4: RelationalExpressionNoIn < ShiftExpression, then for-in"},
+	{"for (var x = a in b in c) ;", "accept", "-", "12.6.4: for (var x = a in (b in c))"},
+	{"for (x = (a in b); ;) break;", "accept", "-", "11.1.6"},
+	{"x = 1 < 2 < 3;", "accept", "-", "11.8"},
+	{"for (var x = a < b < c in d) ;", "accept", "-", "11.8 / 12.6.4"},
+	{"for (var x = a < b; x in c; ) break;", "accept", "-", "12.6.3: In is allowed in the second expression"},
+	{"for (x = a ? b : c in d; ;) ;", "reject", "-", "12.6.4: the left side of for-in is a LeftHandSideExpression"},
+	{"for (var x = a ? b : c in d) ;", "accept", "-", "12.6.4: for-in with initialiser a ? b : c"},
+	{"for (var x = a ? b in c : d in e) ;", "accept", "-", "11.12 / 12.6.4"},
+	{"for (var x = a in b; ;) ;", "reject", "-", "12.6.4: `var x = a in b` is a for-in head"},
+	{"for (a in b in c) ;", "accept", "-", "12.6.4: for (a in (b in c))"},
+	{"for (a in b; ;) ;", "reject", "-", "12.6.3: ExpressionNoIn"},
+	{"for (a < b in c; ;) ;", "reject", "-", "12.6.3 / 12.6.4: a < b is not a LeftHandSideExpression"},
+	{"for (var x = (a in b) ? 1 : 2; ;) break;", "accept", "-", "11.1.6"},
+	{"for (var x = [a in b], y = {k: c in d}, z = f(e in g); ;) break;", "accept", "-", "11.1.4-5, 11.2: In is allowed inside brackets, braces and arguments"},
 	// 7.6.1 reserved words
 	{"var if = 1", "reject", "-", "7.6.1.1"},
 	{"var class = 1", "reject", "-", "7.6.1.2"},
@@ -97,8 +113,8 @@ var earlyTable = []earlyT{
 	{"do ; while (0); x", "accept", "-", "12.6.1"},
 	{"for (;;", "reject", "-", "12.6.3"},
 	{"for (;) ;", "reject", "-", "12.6.3"},
-	{"switch (x) {", "reject", "switch_missing_brace", "12.11"},
-	{"switch (x) { case 1: a; ", "reject", "switch_missing_brace", "12.11"},
+	{"switch (x) {", "reject", "-", "12.11"},
+	{"switch (x) { case 1: a; ", "reject", "-", "12.11"},
 	{"switch (x) { default: default: }", "reject", "-", "12.11: at most one default"},
 	{"switch (x) { a; }", "reject", "-", "12.11"},
 	{"with (a)", "reject", "-", "12.10"},
@@ -108,7 +124,8 @@ var earlyTable = []earlyT{
 	{"a\nb", "accept", "-", "7.9.1"},
 	{"a\n++\nb", "accept", "-", "7.9.1: parsed as a; ++b"},
 	{"a ++\nb", "accept", "-", "7.9.1"},
-	{"x = 1 /*\n*/ y = 2", "accept", "asi_multiline_comment", "7.4 / 7.9: a MultiLineComment containing a line terminator acts as one"},
+	{"function f(){ return /*\n*/ 1 }", "accept", "-", "7.4 / 7.9.1: restricted production across a multi-line comment"},
+	{"x = 1 /*\n*/ y = 2", "accept", "-", "7.4 / 7.9: a MultiLineComment containing a line terminator acts as one"},
 	{"x\r \ny", "accept", "-", "7.3: CR is a LineTerminator"},
 	{"x\ra\n", "accept", "-", "7.3 / 7.9.1: ASI after CR"},
 	{"new\ra\n[ this ]", "accept", "-", "7.3"},
